@@ -581,21 +581,53 @@ package proxy
 // C09 / C08: a message for a shard is handed to the local stream if one exists, otherwise to the known remote
 // owner; it is reported delivered exactly when one of the two happened, never both; a send to a channel whose
 // incarnation is gone cannot crash the process (the send sits in a recover scope).
-//@ ghost shardManagerImpl.remoteSends int
-//@ extern (*intraProxyManager).sendReplicationMessages@(*shardManagerImpl).DeliverMessagesToShardOwner(m, ctx, peer, target, source, resp)
-//@   trusted intra-proxy stream send (intra_proxy_router.go): nil iff the message was put on the peer stream
-//@   ensures result == nil ==> sm.remoteSends == old(sm.remoteSends) + 1
-//@   ensures result != nil ==> sm.remoteSends == old(sm.remoteSends)
-//@   assigns sm.remoteSends
-//@ extern (*intraProxyManager).sendAck@(*shardManagerImpl).DeliverAckToShardOwner(m, ctx, peer, client, server, req)
-//@   trusted intra-proxy stream send (intra_proxy_router.go): nil iff the acknowledgement was put on the peer stream
-//@   ensures result == nil ==> sm.remoteSends == old(sm.remoteSends) + 1
-//@   ensures result != nil ==> sm.remoteSends == old(sm.remoteSends)
-//@   assigns sm.remoteSends
+// sentOn: how many times this message / acknowledgement object has been put on a peer stream (ghost on the message
+// itself; bumped only by the gRPC stream Send at the bottom of the call chain). Every level of the chain - stream
+// sender / receiver, intra-proxy manager, shard manager - is VERIFIED against it: nil is returned exactly when the
+// object was sent once.
+//@ ghost adminservice.StreamWorkflowReplicationMessagesResponse.sentOn int
+//@ ghost adminservice.StreamWorkflowReplicationMessagesRequest.sentOn int
+//@ extern (adminservice.AdminService_StreamWorkflowReplicationMessagesServer).Send@(*intraProxyStreamSender).sendReplicationMessages(stream, msg)
+//@   trusted gRPC server stream: nil iff the message was handed to the transport
+//@   ensures result == nil ==> msg.sentOn == old(msg.sentOn) + 1
+//@   ensures result != nil ==> msg.sentOn == old(msg.sentOn)
+//@   assigns msg.sentOn
+//@ extern (adminservice.AdminService_StreamWorkflowReplicationMessagesClient).Send@(*intraProxyStreamReceiver).sendAck(stream, msg)
+//@   trusted gRPC client stream: nil iff the message was handed to the transport
+//@   ensures result == nil ==> msg.sentOn == old(msg.sentOn) + 1
+//@   ensures result != nil ==> msg.sentOn == old(msg.sentOn)
+//@   assigns msg.sentOn
+//@ extern quiet (*StreamTracker).UpdateStreamLastTaskIDs
+//@ extern quiet (time.Time).Add
+//@ extern quiet (time.Time).After
+//@ extern quiet (*StreamTracker).UpdateStream
+//@ pred goodResp(r *adminservice.StreamWorkflowReplicationMessagesResponse) = r != nil &&
+//@        (msgsOf(r) != nil ==> (forall k int :: { msgsOf(r).ReplicationTasks[k] } 0 <= k && k < len(msgsOf(r).ReplicationTasks) ==> msgsOf(r).ReplicationTasks[k] != nil))
+//@ contract (*intraProxyStreamSender).sendReplicationMessages
+//@   props C09
+//@   requires goodResp(resp)
+//@   ensures @nil_iff_sent_once: (result == nil ==> resp.sentOn == old(resp.sentOn) + 1) && (result != nil ==> resp.sentOn == old(resp.sentOn))
+//@   assigns resp.sentOn
+//@   loop 1 invariant fresh(ids)
+//@ contract (*intraProxyStreamReceiver).sendAck
+//@   props C09
+//@   requires req != nil && r.streamClient != nil
+//@   ensures @nil_iff_sent_once: (result == nil ==> req.sentOn == old(req.sentOn) + 1) && (result != nil ==> req.sentOn == old(req.sentOn))
+//@   assigns req.sentOn
+//@ contract (*intraProxyManager).sendReplicationMessages
+//@   props C09
+//@   requires goodResp(resp)
+//@   ensures @nil_iff_sent_once: (result == nil ==> resp.sentOn == old(resp.sentOn) + 1) && (result != nil ==> resp.sentOn == old(resp.sentOn))
+//@   assigns *, resp.sentOn
+//@   loop 1 invariant resp.sentOn == old(resp.sentOn) && goodResp(resp) && backoff >= 0 && backoff <= 400000000
+//@ contract (*intraProxyManager).sendAck
+//@   props C09
+//@   requires req != nil
+//@   ensures @nil_iff_sent_once: (result == nil ==> req.sentOn == old(req.sentOn) + 1) && (result != nil ==> req.sentOn == old(req.sentOn))
+//@   assigns *, req.sentOn
 //@ extern quiet (*shardManagerImpl).getShardOwner
 //@ extern quiet (*shardManagerImpl).GetProxyAddress
 //@ extern quiet (*shardManagerImpl).GetNodeName
-//@ extern quiet (*shardManagerImpl).GetIntraProxyManager
 //@ extern (*shardManagerImpl).GetRemoteSendChan(sm, shardID)
 //@   trusted registry read under its lock; the channel may belong to an incarnation that has already closed it
 //@   assigns nothing
@@ -605,14 +637,16 @@ package proxy
 //@ contract (*shardManagerImpl).DeliverMessagesToShardOwner
 //@   props C09 C08
 //@   requires routedMsg != nil && goodMsg(deref(routedMsg))
-//@   ensures @exactly_once_iff_true: result <==> ($sends + (sm.remoteSends - old(sm.remoteSends)) == 1)
-//@   ensures @never_twice: $sends + (sm.remoteSends - old(sm.remoteSends)) <= 1
+//@   ensures @exactly_once_iff_true: result <==> ($sends + (old(routedMsg.Resp).sentOn - old(routedMsg.Resp.sentOn)) == 1)
+//@   ensures @never_twice: $sends + (old(routedMsg.Resp).sentOn - old(routedMsg.Resp.sentOn)) <= 1
 //@   callpre sendReplicationMessages: @local_first: $sends == 0
 //@ contract (*shardManagerImpl).DeliverAckToShardOwner
 //@   props C09 C08
-//@   requires routedAck != nil
-//@   ensures @exactly_once_iff_true: result <==> ($sends + (sm.remoteSends - old(sm.remoteSends)) == 1)
-//@   ensures @never_twice: $sends + (sm.remoteSends - old(sm.remoteSends)) <= 1
+//@   requires routedAck != nil && routedAck.Req != nil
+// constructor invariant: acknowledgements are routed only in routing mode, where a memberlist configuration comes with an intra-proxy manager
+//@   requires sm.memberlistConfig != nil ==> sm.intraMgr != nil
+//@   ensures @exactly_once_iff_true: result <==> ($sends + (old(routedAck.Req).sentOn - old(routedAck.Req.sentOn)) == 1)
+//@   ensures @never_twice: $sends + (old(routedAck.Req).sentOn - old(routedAck.Req.sentOn)) <= 1
 //@   callpre sendAck: @local_first: $sends == 0 && allowForward
 
 // ---------------------------------------------------------------------------------------------
@@ -923,7 +957,7 @@ package proxy
 //@   assigns nothing
 //@ contract (*intraProxyStreamSender).Run
 //@   props C08
-//@   requires s.shardManager != nil
+//@   requires s.shardManager != nil && sourceStreamServer != nil
 //@   callpre UnregisterSender: @own_sender: $sender == s && $peerNodeName == old(s.peerNodeName) && $targetShard == old(s.targetShardID) && $sourceShard == old(s.sourceShardID)
 //@   callpre RegisterSender: @self: $sender == s
 
@@ -954,8 +988,9 @@ package proxy
 //@   trusted frame: touches only the manager's peer table (and the network)
 //@   assigns contents(m2.peers)
 //@ extern (*intraProxyManager).closePeerShardLocked@(*intraProxyManager).ReconcilePeerStreams(m2, peer, ps, key)
-//@   trusted frame: touches only the given peer's tables
-//@   assigns contents(ps)
+//@   trusted frame and effect: only removes entries from the given peer's three tables (and cancels / closes the removed stream)
+//@   ensures forall k peerStreamKey :: { k in ps.senders } ps.senders != nil && k in ps.senders ==> old(k in ps.senders) && ps.senders[k] == old(ps.senders[k])
+//@   assigns all(peerState.senders), all(peerState.receivers), all(peerState.recvShutdown), contents(ps.senders), contents(ps.receivers), contents(ps.recvShutdown)
 //@ contract (*intraProxyManager).ReconcilePeerStreams
 //@   props C09
 //@   requires m.shardManager != nil && m.loggers != nil
